@@ -28,12 +28,21 @@ PROFILES = {
     # through a mechanism only the profile of property Y exercises still breaks the correspondence of X's check)
     'all': dict(ops=0.25, obsreset=0.15, new=7, set=30, get=4, obs=9, bindI=12, bindE=10, reset=4, dele=6, move=7, evall=8, bev=3, hold=2, unobs=2,
                 fault=3, user=1, rebind=2),
+    # histories INSIDE the quantifier of the growth theorems (coq/PropFragment.v decides membership; the evidence counts them):
+    # C02in: a growing network (fresh / late bindings, rebinding, reset, destruction of unread properties, both moves) followed by a phase
+    #        of observers that write (valueChanged) and assignments; odd seeds: everything interleaved, fresh bindings only
+    # C06in: a growing mixed network
+    'C02in': dict(inside='c02', ops=0.3, obsset=0.0, new=8, set=36, get=4, obs=8, bindI=18, bindE=0, reset=3, dele=3, move=8, evall=0, bev=0, hold=0, unobs=0,
+                  fault=0, user=0),
+    'C06in': dict(inside='c06', ops=0.2, obsset=0.0, new=8, set=30, get=4, obs=8, bindI=8, bindE=14, reset=3, dele=3, move=6, evall=12, bev=4, hold=0, unobs=2,
+                  fault=0, user=0),
     'C16': dict(new=6, set=34, get=4, obs=8, bindI=12, bindE=6, reset=6, dele=8, move=2, evall=6, bev=2, hold=2, unobs=1, fault=6, user=1),
 }
 
 
 class Gen:
     def __init__(self, seed, profile, length):
+        self.seed = seed
         self.r = random.Random(seed)
         self.p = PROFILES[profile]
         self.profile = profile
@@ -52,6 +61,11 @@ class Gen:
         self.robs = []       # [host property, property whose binding it resets] of the observers that reset
         self.ahosts = set()  # properties that host an observer that writes or resets (such a property is never moved)
         self.stats = {}
+        self.inside = self.p.get('inside')
+        # inside the proven fragments: mixed networks and the interleaved variant bind fresh properties only; destruction and
+        # move assignment only touch properties that no live binding reads
+        self.fresh_only = self.inside == 'c06' or (self.inside == 'c02' and self.seed % 2 == 1)
+        self.phase2 = False
 
     def emit(self, s):
         self.lines.append(s)
@@ -127,6 +141,17 @@ class Gen:
         if p is None:
             return
         k = self.r.choice([0, 1, 1, 1, 2])
+        if self.inside == 'c02' and (self.phase2 or self.fresh_only) and self.r.random() < 0.5:
+            # an observer of valueChanged that writes an unbound property ranked above its host
+            tgt2 = [q for q, d in self.props.items() if d['rank'] > self.props[p]['rank'] and not d['bound']]
+            if tgt2:
+                lab = self.next_label
+                self.next_label += 1
+                h = self.next_obs
+                self.next_obs += 1
+                self.emit(f"pobsset {p} 1 {lab} {h} {self.r.choice(tgt2)}")
+                self.ahosts.add(p)
+                return
         lab = self.next_label
         self.next_label += 1
         h = self.next_obs
@@ -145,6 +170,9 @@ class Gen:
         else:
             self.emit(f"pobs {p} {k} {lab} {h}")
 
+    def read_props(self):
+        return {a for d in self.props.values() if d['bound'] for a in d.get('inputs', [])}
+
     def op_unobs(self):
         if self.obs:
             self.emit(f"punobs {self.r.choice(self.obs)}")
@@ -152,12 +180,14 @@ class Gen:
     def bind(self, mode):
         r = self.r
         # target: an existing property (rebinding / binding a plain one) or a new one (makeBoundProperty)
-        if r.random() < 0.45 and len(self.props) < 12:
+        if (r.random() < 0.45 or self.fresh_only) and len(self.props) < 12:
             p = self.next_prop
             self.next_prop += 1
             rank = self.next_rank
             self.next_rank += 1
             new = True
+        elif self.fresh_only:
+            return
         else:
             p = self.pick()
             if p is None:
@@ -218,6 +248,8 @@ class Gen:
             self.bind(self.r.choice(self.bevs))
 
     def op_reset(self):
+        if self.inside == 'c02' and (self.fresh_only or self.phase2):
+            return
         p = self.pick(lambda p, d: d['bound']) if self.r.random() < 0.85 else self.pick()
         if p is not None:
             self.emit(f"preset {p}")
@@ -226,8 +258,11 @@ class Gen:
     def op_dele(self):
         r = self.r
         c = r.random()
-        if c < 0.7:
-            p = self.pick()
+        if self.inside and self.fresh_only and self.inside == 'c02':
+            return
+        if c < 0.7 or self.inside:
+            rd = self.read_props() if self.inside else set()
+            p = self.pick(lambda p, d: p not in rd)
             if p is not None and len(self.props) > 2:
                 self.emit(f"pdel {p}")
                 del self.props[p]
@@ -249,6 +284,8 @@ class Gen:
         # rank, so hosts of acting observers stay where they are
         if s in self.ahosts:
             return
+        if self.inside == 'c02' and self.fresh_only:
+            return
         # observers move with the signals of their host: a move must not put an observer that resets q's binding on q itself
         # (the binding would be destroyed inside the notification it is delivering: outside every quantifier)
         forbidden = {q for host, q in self.robs if host == s}
@@ -263,7 +300,8 @@ class Gen:
                                  inputs=self.props[s].get('inputs', []))
             self.props[s]['bound'] = False
         else:
-            d = self.pick(lambda p, _: p != s and p not in forbidden)
+            rd = self.read_props() if self.inside else set()
+            d = self.pick(lambda p, _: p != s and p not in forbidden and p not in rd)
             if d is None:
                 return
             self.emit(f"pmoveassign {d} {s}")
@@ -401,12 +439,17 @@ class Gen:
                    bindE=self.op_bindE, reset=self.op_reset, dele=self.op_dele, move=self.op_move, evall=self.op_evall,
                    bev=self.op_bev, hold=self.op_hold, unobs=self.op_unobs, fault=self.op_fault, user=self.op_user,
                    rebind=self.op_rebind, cycle=self.op_cycle)
-        names = [k for k, v in self.p.items() if v > 0 and k in fam]
+        names = [k for k, v in self.p.items() if k in fam and v > 0]
         weights = [self.p[k] for k in names]
         guard = 0
         start = len(self.lines)
         while len(self.lines) - start < self.length and guard < 30 * self.length:
             guard += 1
+            if self.inside == 'c02' and not self.fresh_only and not self.phase2 and len(self.lines) - start > 0.6 * self.length:
+                self.phase2 = True
+            if self.phase2:
+                fam[r.choice(['set', 'set', 'obs', 'get'])]()
+                continue
             fam[r.choices(names, weights)[0]]()
         if self.p.get('cycle'):
             self.op_cycle()
